@@ -507,6 +507,28 @@ def _git_mechanism(base_tree, this_tree, other_tree, base_snap, this_snap, other
     return None
 
 
+def _path_reused(base_snap, other_snap):
+    """True if some path holds entries of different kinds in BASE and in OTHER while BASE's entry (or, for a directory,
+    something below it) lives on at another path of OTHER: OTHER moved an entry away and put another one in its place.
+    Path-based trees cannot tell the two entries apart by anything but that (classifier only, never a verdict)."""
+    where = {}
+    for r, v in other_snap.items():
+        if v[0] in ("file", "symlink"):
+            where.setdefault(v[:2], set()).add(r)
+    for q, b in base_snap.items():
+        o = other_snap.get(q)
+        if o is None or b[0] is None or o[0] is None or b[0] == o[0]:
+            continue
+        if b[0] in ("file", "symlink"):
+            old = [(q, b[:2])]
+        else:
+            old = [(x, v[:2]) for x, v in base_snap.items() if x.startswith(q + "/") and v[0] in ("file", "symlink")]
+        for x, kc in old:
+            if any(r != x and base_snap.get(r, (None, None))[:2] != kc for r in where.get(kc, ())):
+                return True
+    return False
+
+
 def case(ctx):
     _cur[0] = ctx
     try:
@@ -746,7 +768,9 @@ def _case(ctx):
             failures.append(("disk", what, "law %s: disk after merge differs: %r" % (law, _diff(gd, wd))))
         if failures:
             mech = None
-            if git:
+            if git and _path_reused(base_snap, other_snap):
+                mech = "path-names-different-entries"
+            elif git:
                 mech = _git_mechanism(bwt.branch.repository.revision_tree(base_rev), WorkingTree.open(tdir),
                                       ob.repository.revision_tree(other_rev), base_snap, this_snap, other_snap)
             for oracle, what, msg in failures:
